@@ -19,6 +19,8 @@ from . import common
 NOTHING = object()
 COMPARANDS = [
     0, 1, -1, 2, 10, 1.0, 1.5, -0.0, 0.1, 100, 1e2, -1.5, 2.5e-3,
+    # integers beyond 2^53 (exact in Python and in the model): neighbours that round to the same double
+    9007199254740992, 9007199254740993, 9007199254740994, -9007199254740993, 10**25, 10**25 + 1, 123456789012345.5, 10**400,
     "", "a", "b", "ab", "A", "é", "￿", "𐀀", "😀", "1", "true",
     True, False, None,
     [], [1], [True], [1.0], [0], [False], [1, [True]], [1, [1]], [[]], ["a"], [None],
@@ -40,6 +42,8 @@ def lit(sp: gen.Speller, v):
         return sp.string(v)
     if isinstance(v, float) and v == 0.0:
         return "-0.0"
+    if isinstance(v, int) and abs(v) >= 10**15:
+        return str(v)
     return sp.number(v)
 
 
